@@ -106,3 +106,22 @@ func VerifStartProvider(c *Cluster, agent *actor.PID, config SelfManagedConfig, 
 	c.isStarted = true
 	return c.providerPID
 }
+
+// VerifSelfManagedProvider is NewSelfManagedProvider with discovery disabled:
+// a Producer to hand to Config.WithProvider, so that Cluster.Start spawns the
+// real agent and this provider together.  onMsg as in VerifStartProvider.
+func VerifSelfManagedProvider(config SelfManagedConfig, onMsg func(VerifProviderEvent)) Producer {
+	return func(c *Cluster) actor.Producer {
+		return func() actor.Receiver {
+			return &verifSelfManaged{
+				SelfManaged: &SelfManaged{
+					config:       config,
+					cluster:      c,
+					members:      NewMemberSet(),
+					membersAlive: NewMemberSet(),
+				},
+				onMsg: onMsg,
+			}
+		}
+	}
+}
